@@ -430,7 +430,12 @@ class OutdoorCrops:
                 )
 
             else:
-                crops_produced = np.array(self.NO_RELOCATION_KCALS_GROWN)
+                # the cropland under greenhouses is no longer available outdoors
+                # (same as in the relocation branch above)
+                crops_produced = np.multiply(
+                    np.array(self.NO_RELOCATION_KCALS_GROWN),
+                    (1 - greenhouse_fraction_area),
+                )
 
         else:
             crops_produced = np.array([0] * self.NMONTHS)
